@@ -1082,6 +1082,13 @@ def run_c12(ctx):
     return viol
 
 
+# ------------------------------------------------------------------ C07
+def run_c07(ctx):
+    fields = ('api', 'precision', 'subject', 'clip', 'ct', 'fr', 'delta', 'arc_tolerance', 'jt', 'et', 'closed', 'is_open', 'rect')
+    return run_direct(ctx, 'c07', _tier(ctx, 2500, 60000), fields,
+                      lambda d: '%s at precision %s: %s' % (d.get('api'), d.get('precision'), d.get('kind')))
+
+
 REGION_TRUST = [
     "the region checker is proved sound for every real point (Cert/RegionSound.v); what ties it to the code is that the implementation's actual outputs are fed to the extracted checker on every run (generated + corpus inputs): a defect no generated input triggers stays invisible",
     fw.REAL_AXIOMS,
@@ -1174,6 +1181,14 @@ PROPS = {
                   'the oracle hypotheses of C12_fresh_engine (flat output independent of the tree flag; dependence on the added paths only) are what the harness tests: every Execute after a random history is compared with a fresh engine (bytewise; by certified region equality / exact coverage comparison when paths were added in several calls)',
                   'input immutability is checked dynamically (deep copies before/after every call in every harness), not proved'] + REGION_TRUST,
         'rule': 'random histories of 3-11 operations (AddPaths subject/clip/open, Execute, ExecuteOC, ExecutePolyTree, random clip types and fill rules, pre-filled solution arguments) on Clipper64 and ClipperD, each execute compared with a fresh engine; ClipperOffset executed twice with different deltas and with a group added in between; evaluations = operations; non-trivial = histories',
+        'assumes': [],
+    },
+    'C07': {
+        'run': run_c07, 'level': 'proof',
+        'trust': ['K3 translator harness/translate.go: prints the bodies of the floating-point wrappers from /repo\'s current source as terms of the wrapper IR (coq/Model/WrapperIR.v) on every run; the Coq interpreter gives them meaning over uninterpreted primitives (the 64-bit entry points, the scale helpers, math.Pow) and the theorems are re-checked against the regenerated terms',
+                  'the numeric behaviour of the quantiser (float64 product, govalues/decimal shortest-decimal parse, half-even Int64(0)) is an oracle: the property itself takes the library\'s quantiser as the reference',
+                  'differential run: every float entry point is also executed and compared bit for bit with its 64-bit counterpart applied to ScalePathsDToPaths64(input) and unscaled by ScalePaths64ToPathsD, for all 17 precisions and 4 illegal ones'],
+        'rule': 'float inputs on a lattice of quanta with sub-quantum jitter (exact ties at .5, .49999, .50001) x 21 precisions x 11 entry points (boolean ops, wrappers, engine object, PolyTree, inflate, Minkowski sum/diff, rectangle clipping of polygons and lines, trim); evaluations = entry-point calls; non-trivial = inputs',
         'assumes': [],
     },
     'C02': {
